@@ -210,12 +210,14 @@ func vhC01Pairs(k int) ([]vhPgon, []vhPgon) {
 		return []vhPgon{vhRect(0, 0, 20, 20, true), vhRect(6, 6, 18, 18, false), vhRect(10, 10, 14, 14, true)}, []vhPgon{vhRect(-2, 1, 3, 4, true)}
 	case 15: // self-crossing P whose two crossing edges become neighbours in the sweep only after a third edge of P between them has ended; Q to the right of the crossing
 		return []vhPgon{{{0, 0}, {10, 5}, {12, 5}, {12, 0}, {10, 0}, {0, 6}, {-1, 3}, {3, 3}}}, []vhPgon{vhRect(8, 2, 9, 3, true)}
-	default: // operands far apart (bounding boxes do not touch)
+	case 16: // operands far apart (bounding boxes do not touch)
 		return []vhPgon{vhRect(0, 0, 2, 2, true)}, []vhPgon{vhRect(5, 5, 7, 7, true)}
+	default: // Q a line there and back (zero area) that pokes into P and ends inside it: a dangling cut for DivideBy
+		return []vhPgon{{{0, 0}, {2, 4}, {4, 5}}}, []vhPgon{{{0, 7}, {3, 4}}}
 	}
 }
 
-const vhC01NPairs = 17
+const vhC01NPairs = 18
 
 func VH_C01_boolean_region_Q() {
 	pair := vChoose(0, vhC01NPairs-1)
@@ -223,7 +225,6 @@ func VH_C01_boolean_region_Q() {
 	p, q := vhPgonPath(pp), vhPgonPath(qq)
 	pBefore, qBefore := vhCopyData(p.d), vhCopyData(q.d)
 	op := vChoose(0, 4)
-	vKnown("D40", pair == 7 && op == 4)
 	var r *Path
 	switch op {
 	case 0:
@@ -259,7 +260,6 @@ func VH_C01_boolean_region_Q() {
 	default:
 		want = fp
 	}
-	vKnown("D39", op == 4 && (pair == 3 || pair == 4 || pair == 12 || pair == 14)) // DivideBy of a subject with a hole
 	vAssert("C01.boolean.set_algebra", (wr != 0) == want)
 }
 
